@@ -17,7 +17,7 @@ import time
 VERIF = os.path.dirname(os.path.dirname(os.path.abspath(__file__)))
 REPO = os.environ.get("PT_REPO", "/repo")
 WORK = os.path.join(VERIF, ".work")
-DRIVER = os.path.join(VERIF, "ptfacts", "target", "release", "ptfacts")
+DRIVER = os.environ.get("PT_DRIVER") or os.path.join(VERIF, "ptfacts", "target", "release", "ptfacts")
 
 
 def _sysroot():
